@@ -323,7 +323,7 @@ fn shrink_unit(f: &Flat, kind: &str, drv: &mut Driver) -> Flat {
 /// text form of an encoded sheet (the replayable input): rows separated by `/`; a row is `<rep>:<cells>` with
 /// `<rep>` empty when the element has no number-rows-repeated attribute; cells separated by `;`; a cell is
 /// `<kind><payload>[=<formula hex>][~][*k]`: `_` blank, `c` covered blank, `f|p|u<f64 bits hex>`,
-/// `s|a|d|t<utf8 hex>`, `b0|b1`; `=…` = table:formula; `~` = has a display `text:p`; `%` = empty string cell without any `text:p` child; `>` = a childless cell is written `<x></x>` instead of `<x/>`; `@<n>.<m>` = attribute spelling (`odsw::AttrStyle` code n: quotes, white space, order) and blanks-as-`text:s` mode m; `*k` = number-columns-repeated="k".
+/// `s|a|d|t<utf8 hex>`, `b0|b1`; `=…` = table:formula; `~` = has a display `text:p`; `%` = empty string cell without any `text:p` child; `>` = a childless cell is written `<x></x>` instead of `<x/>`; `@<n>.<m>[.<t>.<e>.<c>]` = attribute spelling (`odsw::AttrStyle` code n: quotes, white space, order), blanks-as-`text:s` mode m, foreign-namespace twins t (1 before, 2 after, 3 both), nested table e (1 sub-table, 2 in a draw:frame), spelling c of the repeat count (`odsw::spell_count`); `*k` = number-columns-repeated="k".
 fn cell_text(c: &OdsCell) -> String {
     let mut s = match &c.val {
         OdsVal::Empty => if c.covered { "c".to_string() } else { "_".to_string() },
@@ -357,8 +357,8 @@ fn cell_text(c: &OdsCell) -> String {
     if c.display.is_some() {
         s.push('~');
     }
-    if c.attr_style != AttrStyle::default() || c.text_s != 0 {
-        s.push_str(&format!("@{}.{}", c.attr_style.code(), c.text_s));
+    if c.attr_style != AttrStyle::default() || c.text_s != 0 || c.twins != 0 || c.nested != 0 || c.repeat_spelling != 0 {
+        s.push_str(&format!("@{}.{}.{}.{}.{}", c.attr_style.code(), c.text_s, c.twins, c.nested, c.repeat_spelling));
     }
     if let Some(k) = c.repeat {
         s.push_str(&format!("*{k}"));
@@ -369,7 +369,7 @@ fn cell_text(c: &OdsCell) -> String {
 /// decorations of the table element that hold no rows: column declarations (shape 0..5 of `odsw::columns_xml`,
 /// 9 = none) for `ncols` columns, and a bit set: 1 `table:table-source`, 2 `office:forms`, 4 `table:shapes` (with a
 /// text box), 8 sheet-local `table:named-expressions` after the rows, 16 `calcext:conditional-formats` after the
-/// rows, 32 `table:protected` / `table:print` attributes on the table, 64 decoy sheets before and after, 128 a table without any child is written `<table:table …/>`, 256 a sheet that stores no cell at all (declared and repeated blank rows only) right before the sheet under test, 512 another one as the very first sheet
+/// rows, 32 `table:protected` / `table:print` attributes on the table, 64 decoy sheets before and after, 128 a table without any child is written `<table:table …/>`, 256 a sheet that stores no cell at all (declared and repeated blank rows only) right before the sheet under test, 512 another one as the very first sheet, 1024 foreign-namespace twins of the table's attributes
 #[derive(Clone, Copy, Debug, PartialEq)]
 struct Deco {
     col_shape: usize,
@@ -408,6 +408,9 @@ fn decorate(sheet: &mut OdsSheet, d: Deco) {
     }
     sheet.postlude = post;
     sheet.attr_style = AttrStyle::from_code(d.astyle);
+    if d.bits & 1024 != 0 {
+        sheet.twins = 3;
+    }
     if d.bits & 128 != 0 {
         sheet.self_closing = true; // only takes effect on a table without any child
     }
@@ -439,8 +442,8 @@ fn row_text(r: &RowRun) -> String {
     if r.self_closing {
         t.push('Z');
     }
-    if r.attr_style != AttrStyle::default() {
-        t.push_str(&format!("Q{}q", r.attr_style.code()));
+    if r.attr_style != AttrStyle::default() || r.twins != 0 || r.repeat_spelling != 0 {
+        t.push_str(&format!("Q{}.{}.{}q", r.attr_style.code(), r.twins, r.repeat_spelling));
     }
     t.push_str(&format!(
         "{}:{}",
@@ -455,7 +458,7 @@ fn row_text(r: &RowRun) -> String {
 
 /// rows: `<opens><flags><rep>:<cells><closes>` — opens `G` (table-row-group) `H` (table-header-rows) `R` (table-rows)
 /// before the row, flags `V`/`F` (table:visibility collapse/filter) `K` (soft page break before) `Y` (row style),
-/// one `)` per container closed after the row. `Q<n>q` = attribute spelling of the row element (`AttrStyle` code). Optional sheet prefix `P<col shape>.<ncols>.<bits>[.<attr style>]@` (see `Deco`).
+/// one `)` per container closed after the row. `Q<n>[.<t>.<c>]q` = attribute spelling of the row element (`AttrStyle` code), twins, spelling of its repeat count. Optional sheet prefix `P<col shape>.<ncols>.<bits>[.<attr style>]@` (see `Deco`).
 fn sheet_text(rows: &[RowRun], d: Deco) -> String {
     let pre = if d == NO_DECO { String::new() } else { format!("P{}.{}.{}.{}@", d.col_shape, d.ncols, d.bits, d.astyle) };
     if rows.is_empty() {
@@ -469,12 +472,13 @@ fn parse_cell(s: &str) -> OdsCell {
         Some((b, k)) => (b, Some(k.parse::<usize>().unwrap())),
         None => (s, None),
     };
-    let (body, astyle, text_s) = match body.rsplit_once('@') {
+    let (body, astyle, text_s, twins, nested, spelling) = match body.rsplit_once('@') {
         Some((b, st)) => {
-            let (a, m) = st.split_once('.').expect("style");
-            (b, a.parse::<u32>().unwrap(), m.parse::<u8>().unwrap())
+            let f: Vec<u32> = st.split('.').map(|x| x.parse::<u32>().unwrap()).collect();
+            let g = |i: usize| f.get(i).copied().unwrap_or(0);
+            (b, g(0), g(1) as u8, g(2) as u8, g(3) as u8, g(4) as u8)
         }
-        None => (body, 0, 0),
+        None => (body, 0, 0, 0, 0, 0),
     };
     let (mut body, mut disp, mut ann, mut extra, mut nopara, mut openclose) = (body, false, false, false, false, false);
     loop {
@@ -540,6 +544,9 @@ fn parse_cell(s: &str) -> OdsCell {
     c.self_closing = !openclose;
     c.attr_style = AttrStyle::from_code(astyle);
     c.text_s = text_s;
+    c.twins = twins;
+    c.nested = nested;
+    c.repeat_spelling = spelling;
     c
 }
 
@@ -561,14 +568,19 @@ fn parse_sheet(s: &str) -> (Vec<RowRun>, Deco) {
             let r = r.trim_end_matches(')');
             let (head, cells) = r.split_once(':').expect("row");
             let (head, rstyle) = match (head.find('Q'), head.find('q')) {
-                (Some(a), Some(b)) if a < b => (format!("{}{}", &head[..a], &head[b + 1..]), head[a + 1..b].parse::<u32>().unwrap()),
-                _ => (head.to_string(), 0),
+                (Some(a), Some(b)) if a < b => {
+                    let f: Vec<u32> = head[a + 1..b].split('.').map(|x| x.parse::<u32>().unwrap()).collect();
+                    (format!("{}{}", &head[..a], &head[b + 1..]), (f[0], f.get(1).copied().unwrap_or(0) as u8, f.get(2).copied().unwrap_or(0) as u8))
+                }
+                _ => (head.to_string(), (0, 0, 0)),
             };
             let rep: String = head.chars().filter(|c| c.is_ascii_digit()).collect();
             let mut row = RowRun::new(if cells.is_empty() { vec![] } else { cells.split(';').map(parse_cell).collect() });
             row.repeat = if rep.is_empty() { None } else { Some(rep.parse().unwrap()) };
             row.close = close;
-            row.attr_style = AttrStyle::from_code(rstyle);
+            row.attr_style = AttrStyle::from_code(rstyle.0);
+            row.twins = rstyle.1;
+            row.repeat_spelling = rstyle.2;
             for ch in head.chars() {
                 match ch {
                     'G' => row.open.push(RowWrap::Group),
@@ -594,6 +606,11 @@ fn wrap_rows(rows: &mut [RowRun], rng: &mut Rng) -> Deco {
     if rng.chance(1, 3) {
         return NO_DECO; // plain encoding
     }
+    // the whole declared extent of the sheet (blank runs included): a faulty reader that stores a blank cell makes the
+    // dense range as large as this
+    let total_rows: u64 = rows.iter().map(|r| r.count() as u64).sum();
+    let max_cols: u64 = rows.iter().map(|r| r.cells.iter().map(|c| c.count() as u64).sum::<u64>()).max().unwrap_or(0);
+    let safe_extent = total_rows.saturating_mul(max_cols.max(1)) <= (1 << 21);
     // (kind of each open container); header-rows and table-rows hold rows only, groups nest
     let mut open: Vec<RowWrap> = vec![];
     let n = rows.len();
@@ -627,10 +644,32 @@ fn wrap_rows(rows: &mut [RowRun], rng: &mut Rng) -> Deco {
         if rng.chance(1, 3) {
             row.attr_style = AttrStyle::from_code(rng.below(32 * 64) as u32);
         }
+        if rng.chance(1, 4) {
+            row.twins = rng.range(1, 3) as u8;
+        }
+        if row.repeat.is_some() && rng.chance(1, 4) {
+            // `+k`, `00k`, and on rows (whose value is unescaped) a character reference
+            row.repeat_spelling = rng.range(1, 4) as u8;
+        }
+        // decorations that would turn a blank run into stored cells under a faulty reader are kept off huge runs, so that
+        // such a reader yields a wrong range (a replayable finding) instead of exhausting memory
+        let small_row = row.repeat.unwrap_or(1) <= 64 && safe_extent;
         for cell in row.cells.iter_mut() {
             // every legal spelling of the attributes the reader looks at (repeat count, value type, value, formula)
             if rng.chance(1, 3) {
                 cell.attr_style = AttrStyle::from_code(rng.below(32 * 64) as u32);
+            }
+            // foreign-namespace twins of every attribute the reader looks at, before and / or after the real ones
+            if rng.chance(1, 4) && (!cell.is_blank() || (small_row && cell.count() <= 64)) {
+                cell.twins = rng.range(1, 3) as u8;
+            }
+            // a table nested in a cell whose value is in its attributes (or in a blank cell): its cells are not the sheet's
+            if !matches!(cell.val, OdsVal::Str(_)) && small_row && cell.count() <= 64 && rng.chance(1, 8) {
+                cell.nested = rng.range(1, 2) as u8;
+                cell.self_closing = false;
+            }
+            if cell.repeat.is_some() && rng.chance(1, 4) {
+                cell.repeat_spelling = rng.range(1, 2) as u8;
             }
             if !cell.is_blank() && !cell.covered && rng.chance(1, 8) {
                 cell.span = Some((rng.range(1, 3) as usize, rng.range(1, 3) as usize));
@@ -647,7 +686,7 @@ fn wrap_rows(rows: &mut [RowRun], rng: &mut Rng) -> Deco {
     Deco {
         col_shape: if rng.chance(1, 3) { 9 } else { rng.below(6) as usize },
         ncols: *rng.pick(&[1usize, 2, 3, 7, 1024, 16384]),
-        bits: if rng.chance(1, 2) { rng.below(1024) as u32 } else { 0 },
+        bits: if rng.chance(1, 2) { rng.below(2048) as u32 } else { 0 },
         astyle: if rng.chance(1, 3) { rng.below(32 * 8) as u32 } else { 0 },
     }
 }
@@ -1136,6 +1175,55 @@ fn run_file(rows: &[RowRun], deco: Deco, drv: &mut Driver, stored: bool) -> File
     FileOut { imp, model: [g(0), g(2)], spec: [g(1), g(3)], expect, typed }
 }
 
+/// Spellings of a repeat count that the unchanged reader does not take (a known finding, see findings/C04.json): a
+/// character reference in number-columns-repeated (the value is decoded but not unescaped there; on rows it is), and white
+/// space around the digits on either axis (legal for an xsd:positiveInteger). Files using them get their own signature.
+fn exotic_count_sig(rows: &[RowRun]) -> Option<&'static str> {
+    if rows.iter().any(|r| r.cells.iter().any(|c| c.repeat.is_some() && (c.repeat_spelling == 3 || c.repeat_spelling == 4))) {
+        return Some("count.cols.charref");
+    }
+    if rows.iter().any(|r| r.cells.iter().any(|c| c.repeat.is_some() && c.repeat_spelling >= 5)) {
+        return Some("count.cols.space");
+    }
+    if rows.iter().any(|r| r.repeat.is_some() && r.repeat_spelling >= 5) {
+        return Some("count.rows.space");
+    }
+    None
+}
+
+/// a small sheet whose positions depend on ONE count written in an exotic spelling
+fn gen_count_case(rng: &mut Rng) -> Vec<RowRun> {
+    let k = rng.range(2, 12) as usize;
+    let mut rows = vec![];
+    match rng.below(3) {
+        0 => {
+            let mut b = OdsCell::empty_run(k);
+            b.repeat_spelling = rng.range(3, 4) as u8;
+            rows.push(RowRun::new(vec![OdsCell::float(1.0), b, OdsCell::float(2.0)]));
+        }
+        1 => {
+            let mut b = OdsCell::float(3.0).times(k);
+            b.repeat_spelling = rng.range(5, 6) as u8;
+            rows.push(RowRun::new(vec![b, OdsCell::string("x")]));
+        }
+        _ => {
+            let mut r = RowRun::new(vec![OdsCell::empty()]).times(k);
+            r.repeat_spelling = rng.range(5, 6) as u8;
+            rows.push(RowRun::new(vec![OdsCell::float(1.0)]));
+            rows.push(r);
+            rows.push(RowRun::new(vec![OdsCell::float(2.0)]));
+        }
+    }
+    rows
+}
+
+/// rows x columns the sheet declares, blank runs included
+fn declared_extent(rows: &[RowRun]) -> u64 {
+    let total_rows: u64 = rows.iter().map(|r| r.count() as u64).sum();
+    let max_cols: u64 = rows.iter().map(|r| r.cells.iter().map(|c| c.count() as u64).sum::<u64>()).max().unwrap_or(0);
+    total_rows.saturating_mul(max_cols.max(1))
+}
+
 fn judge_file(o: &FileOut) -> Option<(String, String)> {
     if o.imp[0] != o.expect[0] {
         return Some(("impl_vs_spec".into(), "file.range".into()));
@@ -1341,6 +1429,16 @@ fn file_corpus() -> Vec<&'static str> {
         "P9.1.832.0@:_;f3ff0000000000000/:f4000000000000000",
         // seeded C04-m12: blanks written as text:s with counts 32, 33, 1000 (mode 1 and 2)
         ":s6120202020202020202020202020202020202020202020202020202020202020202062@0.1;s6120202020202020202020202020202020202020202020202020202020202020202062@0.2;s612020202020202020202020202020202020202020202020202020202020202020622063@13.1",
+        // seeded C04-m15: repeat counts spelled `+k`, `00k`, and on rows with a character reference
+        ":_@0.0.0.0.1*3;f3ff0000000000000@0.0.0.0.2*2/Q0.0.1q4:/Q0.0.3q3:/Q0.0.4q12:/:b1",
+        // seeded C04-m16: tables nested in cells (sub-table, table in a draw:frame) of every value kind and of blank cells,
+        // followed by further cells and rows
+        ":f3ff0000000000000>@0.0.0.1.0;_>@0.0.0.2.0;b1>@0.0.0.1.0;a71>@0.0.0.2.0;d323032312d30332d3034>@0.0.0.1.0;s61/:c>@0.0.0.1.0*2;t50543148>~@0.0.0.2.0;f4000000000000000/:s62",
+        // seeded C04-m14: foreign-namespace twins of every attribute, before / after / around the real ones
+        "P9.1.1024.0@Q0.3.0q2:_@0.0.1.0.0*2;f3ff0000000000000=6f663a3d31@0.0.2.0.0*2;s61@0.0.3.0.0;a71@0.0.1.0.0;b0@0.0.2.0.0;d323032312d30332d3034@0.0.3.0.0;_@0.0.3.0.0;f4000000000000000",
+        // known finding (count spellings the unchanged reader rejects): column count with a character reference, blanks around a count
+        ":f3ff0000000000000;_@0.0.0.0.3*3;f4000000000000000",
+        ":f3ff0000000000000/Q0.0.5q3:_/:f4000000000000000",
         // spans, annotations (on a value, a string, a blank), foreign attributes, hidden rows, soft page breaks
         "VKY:f3ff0000000000000^2x2#+~;c;s61#;_#*2;b1+/F:c;c;s782079#+",
     ]
@@ -1362,7 +1460,13 @@ enum CAttr {
     Other(usize),
 }
 
-const OTHER_ATTRS: [&str; 5] = [
+const OTHER_ATTRS: [&str; 11] = [
+    "x:value=\"99.5\"",
+    "x:string-value=\"TWIN\"",
+    "loext:boolean-value=\"true\"",
+    "x:date-value=\"1999-01-01\"",
+    "x:formula=\"of:=TWIN()\"",
+    "x:number-columns-repeated=\"7\"",
     "table:style-name=\"ce1\"",
     "office:currency=\"EUR\"",
     "table:number-columns-repeated=\"1\"",
@@ -1794,6 +1898,15 @@ fn file_counters(rows: &[RowRun], grid: &verif_harness::odsw::Grid, c: &mut Vec<
     if rows.iter().any(|r| r.cells.iter().any(|c| c.text_s != 0 && matches!(&c.val, OdsVal::Str(t) if t.contains(&" ".repeat(33))))) {
         c.push(("file.text_s_run_gt_32", 1));
     }
+    if rows.iter().any(|r| r.twins != 0 || r.cells.iter().any(|c| c.twins != 0)) {
+        c.push(("file.foreign_namespace_twins", 1));
+    }
+    if rows.iter().any(|r| r.cells.iter().any(|c| c.nested != 0)) {
+        c.push(("file.nested_table_in_cell", 1));
+    }
+    if rows.iter().any(|r| r.repeat_spelling != 0 || r.cells.iter().any(|c| c.repeat_spelling != 0)) {
+        c.push(("file.count_spelling", 1));
+    }
     if rows.iter().any(|r| r.visibility.is_some()) {
         c.push(("file.row_visibility", 1));
     }
@@ -1851,6 +1964,9 @@ fn process(w: &Work, drv: &mut Driver, shrink_budget: &mut u32) -> Done {
         Work::File(rows, deco, src, stored) => {
             let deco = *deco;
             let text = format!("F {}", sheet_text(rows, deco));
+            if std::env::var("C04_TRACE").is_ok() {
+                eprintln!("TRACE {}", &text[..text.len().min(3000)]);
+            }
             let sheet = OdsSheet::new("Sheet1", rows.clone());
             let grid = sheet.grid();
             let nontrivial = grid.values().any(|v| v.0 != Data::Empty);
@@ -1876,7 +1992,10 @@ fn process(w: &Work, drv: &mut Driver, shrink_budget: &mut u32) -> Done {
             file_counters(rows, &grid, &mut counters);
             let o = run_file(rows, deco, drv, *stored);
             let mut fail = None;
-            if let Some((kind, sig)) = judge_file(&o) {
+            if let (Some((kind, _)), Some(xs)) = (judge_file(&o), exotic_count_sig(rows)) {
+                counters.push(("file.exotic_count_spelling", 1));
+                fail = Some((kind, xs.to_string(), text.clone(), format!("{} {}", show_out(&o.imp), o.typed.clone().unwrap_or_default()), show_out(&o.model), show_out(&o.expect)));
+            } else if let Some((kind, sig)) = judge_file(&o) {
                 fail = Some((kind.clone(), sig, text.clone(), format!("{} {}", show_out(&o.imp), o.typed.clone().unwrap_or_default()), show_out(&o.model), show_out(&o.expect)));
                 if *shrink_budget > 0 {
                     *shrink_budget -= 1;
@@ -1930,7 +2049,11 @@ fn main() {
          also sent through Row(a) / FirstNonEmptyRow / Row(b) and must agree with fresh reads; attributes of cells, rows and \
          tables spelled with single or double quotes, white space around `=` and between attributes, in permuted order; blanks of \
          string cells written as text:s elements with counts up to 1000; sheets without any stored cell in front of the sheet \
-         under test, every sheet of the file checked), read with Ods::worksheet_range and worksheet_formula and compared with the bounding-box oracle \
+         under test, every sheet of the file checked; foreign-namespace twins (x:value-type, x:number-columns-repeated, x:value, \
+         x:formula … with other values) before and/or after the real attributes of cells, rows and tables; tables nested in value \
+         and blank cells (sub-table, table in a draw:frame); repeat counts spelled +k, 00k, and on rows with character references; \
+         plus a few files per stream with the spellings the unchanged reader rejects — character reference in a column count, \
+         blanks around a count — reported under their own signature count.* as a known finding), read with Ods::worksheet_range and worksheet_formula and compared with the bounding-box oracle \
          of the grid, the Lean model getRange(collectV/collectF runs) and the Lean spec bbox/expand. cell: one table-cell element whose \
          attributes (value-type, 0..2 value attributes, formula, foreign attributes incl. calcext:value-type) stand in random order, \
          70 % well-formed (one value-type with its matching value attribute or text content), attributes spelled with either quote and any white space around `=`, string content with a `text:s` whose \
@@ -1985,20 +2108,46 @@ fn main() {
                         break;
                     }
                     let mut budget = 2u32;
+                    // Files whose DECLARED extent (blank runs included) is huge are run last in their stream, and only if
+                    // the stream has not already shown the implementation faulty on the small files: a reader that
+                    // materialises blank runs is then reported with a small replay instead of exhausting memory.
+                    let mut deferred: Vec<Work> = vec![];
+                    let mut stream_failed = false;
+                    let mut run = |w: Work, drv: &mut Driver, budget: &mut u32, deferred: &mut Vec<Work>, stream_failed: &mut bool| {
+                        if let Work::File(rows, ..) = &w {
+                            if declared_extent(rows) > (1 << 22) {
+                                deferred.push(w);
+                                return;
+                            }
+                        }
+                        let d = process(&w, drv, budget);
+                        if let Some(f) = &d.fail {
+                            if f.0 == "impl_vs_spec" && !f.1.starts_with("count.") {
+                                *stream_failed = true;
+                            }
+                        }
+                        tx.send(d).unwrap();
+                    };
                     if s == 0 {
                         for c in unit_corpus() {
                             let p: Vec<&str> = c.split(' ').collect();
                             let w = Work::Unit(Flat { cells: parse_list(p[0]), cols: parse_list(p[1]), reps: parse_list(p[2]) });
-                            tx.send(process(&w, &mut drv, &mut budget)).unwrap();
+                            run(w, &mut drv, &mut budget, &mut deferred, &mut stream_failed);
                         }
                         for c in file_corpus() {
                             let (rows, deco) = parse_sheet(c);
                             let w = Work::File(rows, deco, None, false);
-                            tx.send(process(&w, &mut drv, &mut budget)).unwrap();
+                            run(w, &mut drv, &mut budget, &mut deferred, &mut stream_failed);
                         }
                         for c in cell_corpus() {
                             let w = Work::Cell(CellCase::parse(c));
-                            tx.send(process(&w, &mut drv, &mut budget)).unwrap();
+                            run(w, &mut drv, &mut budget, &mut deferred, &mut stream_failed);
+                        }
+                        drop(run);
+                        for w in deferred {
+                            if !stream_failed {
+                                tx.send(process(&w, &mut drv, &mut budget)).unwrap();
+                            }
                         }
                         continue;
                     }
@@ -2006,11 +2155,16 @@ fn main() {
                     let share = |n: u64| n / STREAMS + if s - 1 < n % STREAMS { 1 } else { 0 };
                     for _ in 0..share(n_unit) {
                         let w = Work::Unit(gen_flat(&mut urng));
-                        tx.send(process(&w, &mut drv, &mut budget)).unwrap();
+                        run(w, &mut drv, &mut budget, &mut deferred, &mut stream_failed);
                     }
                     for _ in 0..share(n_cell) {
                         let w = Work::Cell(gen_cell(&mut frng));
-                        tx.send(process(&w, &mut drv, &mut budget)).unwrap();
+                        run(w, &mut drv, &mut budget, &mut deferred, &mut stream_failed);
+                    }
+                    for _ in 0..share(n_grid / 20) {
+                        let rows = gen_count_case(&mut frng);
+                        let w = Work::File(rows, NO_DECO, None, false);
+                        run(w, &mut drv, &mut budget, &mut deferred, &mut stream_failed);
                     }
                     for _ in 0..share(n_grid) {
                         let g = gen_grid(&mut frng);
@@ -2019,6 +2173,14 @@ fn main() {
                             let deco = wrap_rows(&mut rows, &mut frng);
                             let stored = frng.chance(1, 4);
                             let w = Work::File(rows, deco, Some(g.clone()), stored);
+                            run(w, &mut drv, &mut budget, &mut deferred, &mut stream_failed);
+                        }
+                    }
+                    drop(run);
+                    if stream_failed {
+                        tx.send(Done { text: format!("skipped {} huge-extent files of stream {s} after a failure", deferred.len()), nontrivial: false, counters: vec![("file.skipped_huge_after_failure", deferred.len() as u64)], fail: None }).unwrap();
+                    } else {
+                        for w in deferred {
                             tx.send(process(&w, &mut drv, &mut budget)).unwrap();
                         }
                     }
